@@ -73,10 +73,11 @@ func (d *EMADynamicSampler) GetSampleRate(trace *types.Trace) (rate uint, keep b
 		d.Logger.Debug().Logf("trace key hit max length of %d, truncating", maxKeyLength)
 	}
 	count := int(trace.DescendantCount())
-	rate = uint(d.dynsampler.GetSampleRateMulti(key, count))
-	if rate < 1 { // protect against dynsampler being broken even though it shouldn't be
-		rate = 1
+	dynRate := d.dynsampler.GetSampleRateMulti(key, count)
+	if dynRate < 1 { // protect against dynsampler being broken even though it shouldn't be
+		dynRate = 1
 	}
+	rate = uint(dynRate)
 	shouldKeep := rand.Intn(int(rate)) == 0
 	d.Logger.Debug().WithFields(map[string]interface{}{
 		"sample_key":  key,
